@@ -13,13 +13,13 @@ pub struct Host {
     pub ttl: u8,
 }
 
-pub const N_PROFILES: usize = 6;
+pub const N_PROFILES: usize = 8;
 
 impl Host {
     pub fn random(r: &mut Rng) -> Host {
         let profile = r.usize_below(N_PROFILES);
         let ts_hz = match profile {
-            1 | 5 => 0,
+            1 | 5 | 7 => 0,
             _ => *r.pick(&[100u32, 250, 1000, 1000, 200, 10]),
         };
         Host { profile, ts_hz, ts_base: if r.chance(1, 8) { 0xffff_ff00u32.wrapping_add(r.below(512) as u32) } else { r.u32() }, ttl: *r.pick(&[64u8, 64, 128, 255, 57, 113]) }
@@ -79,8 +79,17 @@ impl Host {
                 o.extend(opt::nop());
                 o.extend(opt::ws(10));
             }
-            _ => {
+            5 => {
                 o.extend(opt::mss(536));
+            }
+            6 => {
+                // a stack that announces no MSS: the handshake carries the same nop,nop,ts as every later segment
+                o.extend(opt::nop());
+                o.extend(opt::nop());
+                o.extend(ts);
+            }
+            _ => {
+                // no options at all
             }
         }
         o
